@@ -7,7 +7,7 @@ ThoroughSlices == <<
      {1, 2, 49, 50}, [c \in {"large"} |-> <<List(<<QLarge, QOdd>>)>>]),
   Sl("B", <<"api", "web">>, <<"large", "small">>, <<"east">>,
      [s \in {"api", "web"} |-> AllBodies],
-     [s \in {"api", "web"} |-> AllKinds \ {"bareonly", "barehosts", "udp80", "as8080", "svcglobal"}],
+     [s \in {"api", "web"} |-> AllKinds \ {"bareonly", "barehosts", "udp80", "as8080", "svcglobal", "threeto", "dupglobal", "tomix"}],
      {2}, [c \in {"large", "small"} |-> IF c = "large" THEN <<List(<<QLarge>>)>> ELSE <<List(<<QSmall>>)>>]),
   Sl("C", <<"api", "web">>, <<"large", "small">>, <<"east", "west">>,
      [s \in {"api", "web"} |-> IF s = "web" THEN {{}, {"command"}, {"args", "env"}, {"command", "args", "env"}} ELSE NoneAll],
